@@ -60,3 +60,101 @@ Proof.
     + subst; now rewrite Nat.sub_diag.
     + destruct (n - length l) as [|k] eqn:E; [lia|]. cbn. now destruct k.
 Qed.
+
+Lemma NoDup_snoc {A} (l : list A) k : NoDup l -> ~ In k l -> NoDup (l ++ [k]).
+Proof.
+  induction l as [|x t IH]; cbn; intros H Hn.
+  - constructor; auto.
+  - inversion H; subst. constructor.
+    + rewrite in_app_iff; cbn. intros [H1|[H1|[]]]; auto.
+    + apply IH; auto.
+Qed.
+
+Lemma NoDup_app_l {A} (l1 l2 : list A) : NoDup (l1 ++ l2) -> NoDup l1.
+Proof.
+  induction l1 as [|x t IH]; cbn; intros H; [constructor|]. inversion H; subst. constructor.
+  - intros Hin. apply H2. apply in_app_iff. now left.
+  - now apply IH.
+Qed.
+
+(* deletion of every entry with the key (a Python dict has at most one) and
+   facts about key lists of association lists *)
+Section Assoc2.
+  Context {K V : Type}.
+  Variable eqb : K -> K -> bool.
+  Hypothesis eqb_spec : forall a b, eqb a b = true <-> a = b.
+
+  Fixpoint adrop (k : K) (l : list (K * V)) : list (K * V) :=
+    match l with
+    | [] => []
+    | (k', v') :: t => if eqb k k' then adrop k t else (k', v') :: adrop k t
+    end.
+
+  Lemma aget_adrop_same k l : aget eqb k (adrop k l) = None.
+  Proof.
+    induction l as [|[k' v'] t IH]; cbn; auto.
+    destruct (eqb k k') eqn:E; cbn; rewrite ?E; auto.
+  Qed.
+
+  Lemma aget_adrop_other k k' l : k <> k' -> aget eqb k' (adrop k l) = aget eqb k' l.
+  Proof.
+    intros Hn. induction l as [|[k2 v2] t IH]; cbn; auto.
+    destruct (eqb k k2) eqn:E; cbn.
+    - apply eqb_spec in E; subst k2. rewrite (eqb_neq eqb eqb_spec k' k) by congruence. exact IH.
+    - rewrite IH; reflexivity.
+  Qed.
+
+  Lemma aget_In_keys k (l : list (K * V)) : (exists v, aget eqb k l = Some v) <-> In k (map fst l).
+  Proof.
+    induction l as [|[k' v'] t IH]; cbn.
+    - split; [intros (w & H); discriminate|tauto].
+    - destruct (eqb k k') eqn:E.
+      + apply eqb_spec in E; subst. split; [auto|intros _; eauto].
+      + rewrite IH. split; [auto|]. intros [H|H]; auto. subst.
+        rewrite (eqb_refl eqb eqb_spec) in E; discriminate.
+  Qed.
+
+  Lemma aget_None_keys k (l : list (K * V)) : aget eqb k l = None <-> ~ In k (map fst l).
+  Proof.
+    rewrite <- aget_In_keys. destruct (aget eqb k l) eqn:E.
+    - split; [discriminate|]. intros H; exfalso; apply H; eauto.
+    - split; [intros _ (w & H); discriminate | reflexivity].
+  Qed.
+
+  Lemma keys_aset k v (l : list (K * V)) :
+    map fst (aset eqb k v l) = if existsb (eqb k) (map fst l) then map fst l else map fst l ++ [k].
+  Proof.
+    induction l as [|[k' v'] t IH]; cbn; auto.
+    destruct (eqb k k') eqn:E; cbn.
+    - apply eqb_spec in E; subst; reflexivity.
+    - rewrite IH. destruct (existsb (eqb k) (map fst t)); reflexivity.
+  Qed.
+
+  Lemma NoDup_keys_aset k v (l : list (K * V)) : NoDup (map fst l) -> NoDup (map fst (aset eqb k v l)).
+  Proof.
+    intros H. rewrite keys_aset. destruct (existsb (eqb k) (map fst l)) eqn:E; auto.
+    apply NoDup_snoc; auto.
+    intros Hin. assert (existsb (eqb k) (map fst l) = true); [|congruence].
+    apply existsb_exists. exists k; split; auto. apply eqb_spec; reflexivity.
+  Qed.
+
+  Lemma keys_adrop_incl k (l : list (K * V)) x : In x (map fst (adrop k l)) -> In x (map fst l) /\ x <> k.
+  Proof.
+    induction l as [|[k' v'] t IH]; cbn; [tauto|].
+    destruct (eqb k k') eqn:E; cbn.
+    - intros H; destruct (IH H); split; auto.
+    - intros [H|H]; [subst; split; auto; intros ->; rewrite (eqb_refl eqb eqb_spec) in E; discriminate|].
+      destruct (IH H); split; auto.
+  Qed.
+
+  Lemma NoDup_keys_adrop k (l : list (K * V)) : NoDup (map fst l) -> NoDup (map fst (adrop k l)).
+  Proof.
+    induction l as [|[k' v'] t IH]; cbn; auto. intros H; inversion H; subst.
+    destruct (eqb k k'); cbn; auto. constructor; auto.
+    intros Hin. apply keys_adrop_incl in Hin. tauto.
+  Qed.
+
+  Lemma aget_app k (l1 l2 : list (K * V)) :
+    aget eqb k (l1 ++ l2) = match aget eqb k l1 with Some v => Some v | None => aget eqb k l2 end.
+  Proof. induction l1 as [|[k' v'] t IH]; cbn; auto. destruct (eqb k k'); auto. Qed.
+End Assoc2.
